@@ -210,7 +210,7 @@ As multisets, the scalar / id lexemes of the input are those of the tape plus th
 is one chunk per rewrite move, and each chunk is empty or the lexemes of a single tape token. -/
 theorem C03_no_scalar_dropped (opt : Bool) (data : Bytes) (T : Tape) (h : parse opt data = .ok T)
     (L : List Lx) (hL : Lexes data L) :
-    ∃ odds : List (List Lx), Moves [] L (flat T) odds ∧ (∀ o ∈ odds, o = [] ∨ ∃ y : BTok, o = flatten y) ∧
+    ∃ odds : List (List Lx), Moves [] L (flat T) odds ∧ (∀ o ∈ odds, o = [] ∨ ∃ y : BTok, o = flatten y ∧ y.isPlain = true) ∧
       (L.filter Lx.isTok).Perm ((flat T).filter Lx.isTok ++ odds.flatten.filter Lx.isTok) := by
   obtain ⟨odds, hm⟩ := parse_moves opt data T h L hL
   exact ⟨odds, hm, hm.odds_shape, by simpa using hm.toks_perm⟩
